@@ -188,7 +188,7 @@ func c20Check(c c20Case) (*eng.Fail, string) {
 
 func init() {
 	checks["C20"] = eng.Check{
-		Rule:        "ELF64-LE files written by the harness: type in {NONE, REL, EXEC, DYN, CORE} x <=2 (thorough 3) user sections (type PROGBITS/NOBITS/NOTE x flags {0, ALLOC, ALLOC|EXEC} x addr {0, 0x1000, 0x1004, 0x1008} x size {0,4,8}) x <=2 (thorough 3) program headers (type LOAD/NOTE x vaddr {0x1000,0x1004,0x1008} x filesz {0,4,8} x memsz {0,4,8,12} incl. memsz<filesz; plus LOAD headers that claim 4 bytes or 64 KiB more file bytes than were placed for them, i.e. a file extent reaching into the following file content or past the end of the file; plus LOAD headers whose physical address differs from the virtual one) — all combinations incl. overlapping and adjacent ones — through elf.NewParser/MachineCode/Memory/Entrypoint/Address. Oracle from the generator's description: REL/CORE/NONE and any overlap must be rejected; whatever loads must equal the description (code = qualifying sections as sorted blocks, adjacent ones not merged; memory = file bytes then zeros; Address(a) for every a in 0xff8..0x1020 = tail of its block or nil); plus a code section and a segment of 4 and 8 bytes ending exactly at 2^64 with lookups over the last 12 addresses. Non-trivial = file for which both images load.",
+		Rule:        "ELF64-LE files written by the harness: type in {NONE, REL, EXEC, DYN, CORE} x <=2 (thorough 3) user sections (type PROGBITS/NOBITS/NOTE x flags {0, ALLOC, ALLOC|EXEC} x addr {0, 0x1000, 0x1004, 0x1008} x size {0,4,8}) x <=2 (thorough 3) program headers (type LOAD/NOTE x vaddr {0x1000,0x1004,0x1008} x filesz {0,4,8} x memsz {0,4,8,12} incl. memsz<filesz; plus LOAD headers that claim 4 bytes or 64 KiB more file bytes than were placed for them, i.e. a file extent reaching into the following file content or past the end of the file; plus LOAD headers whose physical address differs from the virtual one) — all combinations incl. overlapping and adjacent ones, every section list also in a header table without the customary null entry — through elf.NewParser/MachineCode/Memory/Entrypoint/Address. Oracle from the generator's description: REL/CORE/NONE and any overlap must be rejected; whatever loads must equal the description (code = qualifying sections as sorted blocks, adjacent ones not merged; memory = file bytes then zeros; Address(a) for every a in 0xff8..0x1020 = tail of its block or nil); plus a code section and a segment of 4 and 8 bytes ending exactly at 2^64 with lookups over the last 12 addresses; plus a file of 20 executable sections and 20 segments (adjacent and apart) in sorted, reversed, interleaved and rotated table order. Non-trivial = file for which both images load.",
 		Assumptions: []string{"errors are always acceptable outcomes (the property allows 'reports an error'); crashes are not", "files are well-formed ELF64 containers (corruption is C26's domain)"},
 		Run: func(r *eng.Run) {
 			dir, err := os.MkdirTemp("", "vc20")
@@ -293,6 +293,43 @@ func init() {
 					runtime.GC() // finalizers close files of rejected parsers
 				}
 			}
+			// (many) 20 executable sections and 20 segments (more than a library sort handles by
+			// insertion; some adjacent, some apart) in sorted, reversed, interleaved and rotated table order
+			{
+				const nm = 20
+				var ms []elfgen.Section
+				var mp []elfgen.Prog
+				for i := 0; i < nm; i++ {
+					a := 0x1000 + uint64(i)*8
+					if i%3 == 2 {
+						a += 0x100 // apart from its predecessor
+					}
+					ms = append(ms, elfgen.Section{Type: elfgen.SHT_PROGBITS, Flags: 6, Addr: a, Data: mkdata(4+4*(i%2), 0x10+byte(i)), Size: uint64(4 + 4*(i%2))})
+					mp = append(mp, elfgen.Prog{Type: elfgen.PT_LOAD, Vaddr: a, Data: mkdata(4, 0x80+byte(i)), Memsz: uint64(4 + 4*(i%2))})
+				}
+				perms := []func(i int) int{
+					func(i int) int { return i },
+					func(i int) int { return nm - 1 - i },
+					func(i int) int {
+						if i < nm/2 {
+							return 2 * i
+						}
+						return 2*(i-nm/2) + 1
+					},
+				}
+				for k := 1; k < nm; k += 3 {
+					k := k
+					perms = append(perms, func(i int) int { return (i + k) % nm })
+				}
+				for _, pf := range perms {
+					f := elfgen.File{Type: elfgen.ET_EXEC, Entry: 0x1000}
+					for i := 0; i < nm; i++ {
+						f.Sections = append(f.Sections, ms[pf(i)])
+						f.Progs = append(f.Progs, mp[pf(nm-1-i)])
+					}
+					do(f)
+				}
+			}
 			// (0) a code section / a segment whose last byte is the last byte of the address space
 			for _, n := range []int{4, 8} {
 				top := -uint64(n)
@@ -309,6 +346,11 @@ func init() {
 						do(elfgen.File{Type: ty, Entry: 0x1000, Sections: secLists[i], Progs: pl})
 						gc()
 					}
+				}
+				// the same sections in a header table without the customary null entry at index 0
+				if len(secLists[i]) > 0 {
+					do(elfgen.File{Type: elfgen.ET_EXEC, Entry: 0x1000, Sections: secLists[i], Progs: fixedProgs[0], NoNull: true})
+					gc()
 				}
 			})
 			// (2) all program-header lists x fixed sections x types
